@@ -26,13 +26,24 @@ func FromString(input string) CacheKey {
 	return NewCacheKey([]byte(input))
 }
 
+// normalizePath removes dot-segments and duplicate slashes like path.Clean, but keeps the
+// trailing slash that path.Clean drops: "/dir/" and "/dir" are different resources.
+// As in RFC 3986 section 5.2.4, a path ending in "/." or "/.." names a directory too.
+func normalizePath(p string) string {
+	clean := path.Clean(p)
+	if clean != "/" && (strings.HasSuffix(p, "/") || strings.HasSuffix(p, "/.") || strings.HasSuffix(p, "/..")) {
+		clean += "/"
+	}
+	return clean
+}
+
 func MakeFromRequest(r *http.Request) CacheKey {
 	scheme := "http"
 	if r.TLS != nil {
 		scheme = "https"
 	}
 	normHost := strings.ToLower(r.Host)
-	normPath := path.Clean(r.URL.Path)
+	normPath := normalizePath(r.URL.Path)
 	// Every component is prefixed with its length: a '|' inside a component (e.g. "/a|b?c" vs
 	// "/a?b|c") must not be able to shift the component boundaries and alias two requests.
 	stringKey := fmt.Sprintf("%s|%d:%s|%d:%s|%d:%s|%d:%s", scheme,
